@@ -98,7 +98,9 @@ class Cur:
                                                "parameters (%d values, statement %r)" % (len(params), sql[:120]))
             parts = sql.split("%s")
             sql = "?".join(p.replace("'?'", "'' || char(63) || ''").replace("%%", "%") for p in parts)
-        return self.c.execute(sql, params)
+        res = self.c.execute(sql, params)
+        # (what execute() returns is the driver's business: sqlite3 hands back the cursor, the mysql connector nothing)
+        return None if self.percent_s else res
 
     def __iter__(self):
         return iter(self.c)
@@ -542,7 +544,14 @@ def run_case(ctx, rng):
             m = method("group") if rng.random() < 0.8 else SqlMethod(
                 "SELECT n, count(*) AS cnt FROM t", group_by="n", order_by="n")
             call_kw.pop('_order_by', None)
-            got = [tuple(r) for r in m.list(conn, *args, **call_kw)]
+            if SqlMethodT is not None and rng.random() < 0.3:
+                # (the grouping method presented as a table: the wrapper is made from the method OBJECT)
+                if "table-group" not in _METHODS:
+                    _METHODS["table-group"] = SqlMethodT(method("group"))
+                got = [tuple(r) for r in _METHODS["table-group"].list(conn, *args, **call_kw).r]
+                ctx.count("grouped_queries_through_SqlMethodT")
+            else:
+                got = [tuple(r) for r in m.list(conn, *args, **call_kw)]
             cnt = {}
             for r in rows:
                 if r['id'] in exp:
